@@ -341,6 +341,23 @@ def run(ctx: core.Ctx):
         total = 1 << (n * (n - 1) // 2)
         step = max(1, total // 32)
         gj += [(graphs_job, (n, lo, min(total, lo + step))) for lo in range(0, total, step)]
+    from .. import history, symrun
+    symrun.purity(ctx, (lcc.determine_lc_class, lcc.determine_lc_class2, lcc.determine_lc_class3, lcc.determine_lc_class4, lcc.determine_lc_class5,
+                        lcc.determine_lc_class6, lcc.count_identity_string, lcc.count_identity_structures, lcc.bits, lcc.index_of_first_set_bit, lcc.all_but),
+                  "C06.frame.no_module_state")
+    hist_jobs = []
+    for n in range(2, 7):
+        its = history.items_for(n, rnd)
+        if n == 6 and ctx.quick:
+            its = rnd.sample(its, 150)
+        hist_jobs += [(n, ch, rnd.randrange(1 << 30), "classify") for ch in core.chunked(its, 8 if n < 6 else 32)]
+    famh = ctx.family("C06.edited_object.class_id", BOUNDED, "native", "an object edited through its public attributes (single-qubit / CZ edits on every qubit) is classified like a fresh object with the same data")
+    famh.exhaustive = False
+    for res in core.pmap(history.edited_job, hist_jobs, chunks=1):
+        for famname, ok, key, what, rp in res:
+            ctx.record(famh, PROVED if ok else REFUTED, rp if famh.total < 2 else None)
+            if not ok:
+                ctx.violate(famh, key, what, rp)
     if not ctx.quick:
         orbs = list(range(760))
         gj += [(groups6_job, (ch, rnd.randrange(1 << 30))) for ch in core.chunked(orbs, 190)]
